@@ -402,7 +402,7 @@ func checkErrPropagated(c *core.Ctx, r *core.Report, rule string, call *ssa.Call
 			if core.ReturnSuccess(ret) != core.No && core.NilnessAt(errv, ret.Block()) != core.Yes {
 				// returning the error value itself is propagation
 				idx := core.ErrResultIndex(fn)
-				if idx >= 0 && ret.Results[idx] == errv {
+				if idx >= 0 && core.RetResult(ret, idx) == errv {
 					return true
 				}
 				bad = ret
@@ -429,3 +429,84 @@ func callsTo(fn *ssa.Function, o types.Object) []*ssa.Call {
 }
 
 func posOf(c *core.Ctx, in ssa.Instruction) string { return c.Pos(in.Pos()) }
+
+// appendSitesOf returns the builtin append calls of fn that append value v
+// (directly or through the variadic backing array).
+func appendSitesOf(v ssa.Value) []ssa.Instruction {
+	var out []ssa.Instruction
+	seen := map[ssa.Value]bool{}
+	var rec func(x ssa.Value)
+	rec = func(x ssa.Value) {
+		if x == nil || seen[x] {
+			return
+		}
+		seen[x] = true
+		refs := x.Referrers()
+		if refs == nil {
+			return
+		}
+		for _, in := range *refs {
+			switch y := in.(type) {
+			case *ssa.Store:
+				if y.Val == x {
+					if ia, ok := y.Addr.(*ssa.IndexAddr); ok {
+						rec(ia.X)
+					}
+				}
+			case *ssa.Slice:
+				rec(y)
+			case *ssa.Call:
+				if bi, ok := y.Call.Value.(*ssa.Builtin); ok && bi.Name() == "append" {
+					out = append(out, y)
+				}
+			}
+		}
+	}
+	rec(v)
+	return out
+}
+
+// checkAdoptedOnSuccess: once call succeeded (err == nil edge), every path
+// reaches an append of its result before the next iteration / a return: no
+// condition on the data may skip the adoption.
+func checkAdoptedOnSuccess(c *core.Ctx, r *core.Report, rule string, call *ssa.Call, what, why string) {
+	fn := call.Parent()
+	construct := fmt.Sprintf("%s:result-of(%s)-adopted-on-success", core.FnName(fn), what)
+	errv, others := errResultOf(call)
+	if errv == nil || len(others) == 0 {
+		r.Undecided(rule, construct, c.Pos(call.Pos()), "call shape changed")
+		return
+	}
+	adopt := map[ssa.Instruction]bool{}
+	for _, o := range others {
+		for _, a := range appendSitesOf(o) {
+			adopt[a] = true
+		}
+	}
+	if len(adopt) == 0 {
+		r.Violation(rule, construct, c.Pos(call.Pos()), "the result is never appended to the adopted set — "+why)
+		return
+	}
+	var bad ssa.Instruction
+	core.WalkForward(fn, call, func(in ssa.Instruction) bool {
+		if adopt[in] {
+			return false
+		}
+		if core.NilnessAt(errv, in.Block()) == core.No {
+			return false // failure edge
+		}
+		if in == ssa.Instruction(call) {
+			bad = in
+			return false
+		}
+		if ret, ok := in.(*ssa.Return); ok {
+			bad = ret
+		}
+		return true
+	})
+	if bad != nil {
+		r.Violation(rule, construct, c.Pos(call.Pos()), "after "+what+" succeeded there is a path to the next iteration / a return that skips the adoption — "+why)
+		return
+	}
+	r.OK(rule, construct, c.Pos(call.Pos()), "every path from the err == nil edge reaches the append")
+}
